@@ -148,7 +148,7 @@ def decide(rep, prog):
     dedupe_key_check(rep, stats['topo.rest']['loops'], noff, 'R07.b', fnf)
 
     # ---------------- reporter (parseQuery)
-    ql = [l for l in stats['topo.query']['loops'] if l.startswith('parseQuery#')]
+    ql = sorted(stats['topo.query']['loops'])      # every loop of the Query cell; the report loop is recognised by what it writes
     wire_ok = False
     report_loops = set()
     for l in ql:
@@ -176,7 +176,7 @@ def decide(rep, prog):
                     wire_ok = True
                     report_loops.add(l)
     # the report loop may only be left through its condition (all announced descriptors copied / list ended)
-    for l in ql:
+    for l in sorted(report_loops):
         info = stats['topo.query']['loops'][l]
         early = [kind for kind, trace, st in (info['iter_states'] or []) if kind in ('break', 'return')]
         rep.check(not early, 'R07.i', 'report-loop|early-exit',
